@@ -227,7 +227,11 @@ def cfg_hex(tier, seed):
     out = []
     for rings in ((1, 2) if tier == 'quick' else (1, 2, 3)):
         for rot in (False, True):
-            out.append({'what': 'geometry', 'rings': rings, 'rotate': rot})
+            if rings == 1:
+                out.append({'what': 'geometry', 'rings': rings, 'rotate': rot})
+            else:
+                # the pair obligations of the larger apertures are spread over several processes
+                out += [{'what': 'geometry', 'rings': rings, 'rotate': rot, 'chunk': [k, 8]} for k in range(8)]
     for rings, drop in ((1, [0]), (2, [0, 3]), (1, []), (2, [1, 2, 18])):
         for rot in (False, True):
             out.append({'what': 'count', 'rings': rings, 'rotate': rot, 'drop': drop})
@@ -236,6 +240,9 @@ def cfg_hex(tier, seed):
     for R, rot, rings in ((4, False, 1), (4, True, 1), (3, False, 2), (5, True, 1), (4.5, False, 1), (2.5, True, 2)):
         out.append({'what': 'count', 'rings': rings, 'rotate': rot, 'drop': [], 'R': R, 'g': 0})
     out.append({'what': 'count', 'rings': 2, 'rotate': True, 'drop': [5], 'R': 4})
+    for c in out:
+        if c['what'] == 'count':
+            c['_concrete'] = 1          # no symbolic input: counted as concrete-only obligations on the real code
     return out, len(out), True
 
 
@@ -284,9 +291,13 @@ def run_hex(W, cfg):
     # all pairs for one ring; adjacent cells (hex distance 1) beyond that
     def dist(a, b):
         return max(abs(a.q - b.q), abs(a.r - b.r), abs(a.s - b.s))
+    npair = 0
     for i in range(len(member)):
         for j in range(i + 1, len(member)):
             if rings > 1 and dist(hexes[i], hexes[j]) > 1:
+                continue
+            npair += 1
+            if cfg.get('chunk') and npair % cfg['chunk'][1] != cfg['chunk'][0]:
                 continue
             both = (member[i] > 0) & (member[j] > 0) if W.sym else (member[i] > 0 and member[j] > 0)
             W.ob_true(f'no position belongs to segments {i} and {j}', ~both if W.sym else not both)
